@@ -17,12 +17,10 @@
 //    parse_up_to_three_dots; description.rs: parse_optional_description,
 //    parse_single_line_description, parse_multiline_description, the slicing of
 //    clean_block_string_literal; closure contracts are spliced with //@closure;
-//  * the BLOCKS of four alternatives of parse_non_constant_value / parse_type_annotation
-//    (closures capturing `tokens` mutably are outside Verus), the integer-literal conversion;
+//  * parse_non_constant_value and parse_type_annotation with their try-alternatives idiom
+//    unfolded (R22), to_control_flow / from_control_flow, the integer-literal conversion;
 //  * the logos callbacks lex_string / lex_block_string.
-// Assumed (contract only): the logos-generated lexer; the composition glue of
-// parse_non_constant_value and parse_type_annotation (from_control_flow / to_control_flow) and
-// (all five value alternatives and both type alternatives are checked as blocks); the payload
+// Assumed (contract only): the logos-generated lexer; the payload
 // types of the AST that are opaque stand-ins (string-key newtypes, directive sets, constant
 // values). Termination of the parser is not proved.
 use vstd::prelude::*;
@@ -473,7 +471,7 @@ impl<'source> PeekableLexer<'source> {
 }
 
 // ---- call sites of the span combinators in parse_iso_literal.rs (closure contracts spliced) ----
-//@fn rel=crates/isograph_lang_parser/src/parse_iso_literal.rs name=parse_up_to_three_dots vis=pub ret=r serves=C07
+//@fn rel=crates/isograph_lang_parser/src/parse_iso_literal.rs name=parse_up_to_three_dots vis=pub ret=r serves=C07 prefix="#[verifier::exec_allows_no_decreases_clause]"
 //@rw R4 R6 R6b
 //@hsub "tokens: &mut PeekableLexer\)" => "tokens: &mut PeekableLexer<'_>)"
 //@contract
@@ -567,7 +565,7 @@ pub open spec fn cursor_fn_ok<'a, T, F: Fn(&mut PeekableLexer<'a>) -> Diagnostic
             && (y is Err ==> diag_ok(y->Err_0, byte_len(x.source)))
 }
 
-//@fn rel=crates/isograph_lang_parser/src/parse_iso_literal.rs name=parse_comma vis=pub ret=r serves=C07
+//@fn rel=crates/isograph_lang_parser/src/parse_iso_literal.rs name=parse_comma vis=pub ret=r serves=C07 prefix="#[verifier::exec_allows_no_decreases_clause]"
 //@contract
     requires old(tokens).inv(),
     ensures final(tokens).inv(), final(tokens).same_literal(old(tokens)), final(tokens).monotone(old(tokens)),
@@ -576,7 +574,7 @@ pub open spec fn cursor_fn_ok<'a, T, F: Fn(&mut PeekableLexer<'a>) -> Diagnostic
         r is Err ==> diag_ok(r->Err_0, byte_len(old(tokens).source)), //@O C07.O-7_diagnostic_location_inside_literal
 //@end
 
-//@fn rel=crates/isograph_lang_parser/src/parse_iso_literal.rs name=parse_line_break vis=pub ret=r serves=C07
+//@fn rel=crates/isograph_lang_parser/src/parse_iso_literal.rs name=parse_line_break vis=pub ret=r serves=C07 prefix="#[verifier::exec_allows_no_decreases_clause]"
 //@rw R15 R4
 //@sub "tokens\.source\(tokens\.white_space_span\(\)\)\.contains\('\\n'\)" => "str_contains_char(tokens.source(tokens.white_space_span()), '\\n')" n=1
 //@contract
@@ -587,7 +585,7 @@ pub open spec fn cursor_fn_ok<'a, T, F: Fn(&mut PeekableLexer<'a>) -> Diagnostic
         r is Err ==> diag_ok(r->Err_0, byte_len(old(tokens).source)), //@O C07.O-7_diagnostic_location_inside_literal
 //@end
 
-//@fn rel=crates/isograph_lang_parser/src/parse_iso_literal.rs name=parse_comma_or_line_break vis=pub ret=r serves=C07
+//@fn rel=crates/isograph_lang_parser/src/parse_iso_literal.rs name=parse_comma_or_line_break vis=pub ret=r serves=C07 prefix="#[verifier::exec_allows_no_decreases_clause]"
 //@rw R15 R4
 //@contract
     requires old(tokens).inv(),
@@ -655,7 +653,7 @@ pub open spec fn cursor_fn_ok<'a, T, F: Fn(&mut PeekableLexer<'a>) -> Diagnostic
 //@closure 2 params="selections: Vec<WithEmbeddedLocation<Selection>>" ret="ss: SelectionSet"
 //@end
 
-//@fn rel=crates/isograph_lang_parser/src/parse_iso_literal.rs name=parse_optional_alias_and_field_name vis=pub ret=r serves=C07
+//@fn rel=crates/isograph_lang_parser/src/parse_iso_literal.rs name=parse_optional_alias_and_field_name vis=pub ret=r serves=C07 prefix="#[verifier::exec_allows_no_decreases_clause]"
 //@rw R4
 //@hsub "tokens: &mut PeekableLexer," => "tokens: &mut PeekableLexer<'_>,"
 //@contract
@@ -675,17 +673,8 @@ impl From<StringKey> for StringLiteralValue { #[verifier::external_body] fn from
 #[derive(Clone, Copy)] pub struct EnumLiteralValue(pub StringKey);
 //@item rel=crates/isograph_lang_types/src/declarations/selection_argument.rs kind=enum name=NonConstantValueInner prefix="pub"
 pub type NonConstantValue = NonConstantValueInner<EmbeddedLocation>;
-/// parse_non_constant_value: its alternatives are closures capturing `tokens` mutably (outside
-/// Verus); contract assumed for the composition, the alternatives' blocks are checked below
-#[verifier::external_body]
-pub fn parse_non_constant_value(tokens: &mut PeekableLexer<'_>) -> (r: DiagnosticResult<WithEmbeddedLocation<NonConstantValue>>)
-    requires old(tokens).inv(),
-    ensures final(tokens).inv(), final(tokens).same_literal(old(tokens)), final(tokens).monotone(old(tokens)),
-        r is Ok ==> final(tokens).progressed(old(tokens)) && located_from(r->Ok_0, old(tokens)),
-        r is Err ==> diag_ok(r->Err_0, byte_len(old(tokens).source)),
-{ unimplemented!() }
 
-//@fn rel=crates/isograph_lang_parser/src/parse_iso_literal.rs name=parse_argument vis=pub ret=r serves=C07
+//@fn rel=crates/isograph_lang_parser/src/parse_iso_literal.rs name=parse_argument vis=pub ret=r serves=C07 prefix="#[verifier::exec_allows_no_decreases_clause]"
 //@rw R4
 //@contract
     requires old(tokens).inv(),
@@ -701,7 +690,7 @@ pub fn parse_non_constant_value(tokens: &mut PeekableLexer<'_>) -> (r: Diagnosti
                 cr is Err ==> diag_ok(cr->Err_0, byte_len(old(tokens).source)),
 //@end
 
-//@fn rel=crates/isograph_lang_parser/src/parse_iso_literal.rs name=parse_optional_arguments vis=pub ret=r serves=C07
+//@fn rel=crates/isograph_lang_parser/src/parse_iso_literal.rs name=parse_optional_arguments vis=pub ret=r serves=C07 prefix="#[verifier::exec_allows_no_decreases_clause]"
 //@rw R19 R4
 //@hsub "tokens: &mut PeekableLexer," => "tokens: &mut PeekableLexer<'_>,"
 //@contract
@@ -712,7 +701,7 @@ pub fn parse_non_constant_value(tokens: &mut PeekableLexer<'_>) -> (r: Diagnosti
         r is Err ==> diag_ok(r->Err_0, byte_len(old(tokens).source)), //@O C07.O-7_diagnostic_location_inside_literal
 //@end
 
-//@fn rel=crates/isograph_lang_parser/src/parse_iso_literal.rs name=parse_object_entry vis=pub ret=r serves=C07
+//@fn rel=crates/isograph_lang_parser/src/parse_iso_literal.rs name=parse_object_entry vis=pub ret=r serves=C07 prefix="#[verifier::exec_allows_no_decreases_clause]"
 //@rw R4
 //@hsub "tokens: &mut PeekableLexer," => "tokens: &mut PeekableLexer<'_>,"
 //@contract
@@ -791,17 +780,8 @@ pub fn constant_value_of(v: NonConstantValue) -> Result<ConstantValue, VariableN
 //@item rel=crates/isograph_lang_types/src/declarations/variable_declaration.rs kind=struct name=VariableDeclarationInner prefix="#[verifier::reject_recursive_types(TLocation)] pub"
 pub type VariableDeclaration = VariableDeclarationInner<EmbeddedLocation>;
 
-/// parse_type_annotation: alternatives are closures capturing `tokens` mutably (outside
-/// Verus); contract assumed for the composition
-#[verifier::external_body]
-pub fn parse_type_annotation(tokens: &mut PeekableLexer<'_>) -> (r: DiagnosticResult<WithEmbeddedLocation<GraphQLTypeAnnotation>>)
-    requires old(tokens).inv(),
-    ensures final(tokens).inv(), final(tokens).same_literal(old(tokens)), final(tokens).monotone(old(tokens)),
-        r is Ok ==> final(tokens).progressed(old(tokens)) && located_from(r->Ok_0, old(tokens)),
-        r is Err ==> diag_ok(r->Err_0, byte_len(old(tokens).source)),
-{ unimplemented!() }
 
-//@fn rel=crates/isograph_lang_parser/src/parse_iso_literal.rs name=parse_optional_default_value vis=pub ret=r serves=C07
+//@fn rel=crates/isograph_lang_parser/src/parse_iso_literal.rs name=parse_optional_default_value vis=pub ret=r serves=C07 prefix="#[verifier::exec_allows_no_decreases_clause]"
 //@rw R6b R15 R16 R4
 //@sub "non_constant_value\.item\.try_into\(\)" => "constant_value_of(non_constant_value.item)" n=1
 //@contract
@@ -812,7 +792,7 @@ pub fn parse_type_annotation(tokens: &mut PeekableLexer<'_>) -> (r: DiagnosticRe
         r is Err ==> diag_ok(r->Err_0, byte_len(old(tokens).source)), //@O C07.O-7_diagnostic_location_inside_literal
 //@end
 
-//@fn rel=crates/isograph_lang_parser/src/parse_iso_literal.rs name=parse_variable_definition vis=pub ret=r serves=C07
+//@fn rel=crates/isograph_lang_parser/src/parse_iso_literal.rs name=parse_variable_definition vis=pub ret=r serves=C07 prefix="#[verifier::exec_allows_no_decreases_clause]"
 //@rw R4
 //@contract
     requires old(tokens).inv(),
@@ -828,7 +808,7 @@ pub fn parse_type_annotation(tokens: &mut PeekableLexer<'_>) -> (r: DiagnosticRe
                 cr is Err ==> diag_ok(cr->Err_0, byte_len(old(tokens).source)),
 //@end
 
-//@fn rel=crates/isograph_lang_parser/src/parse_iso_literal.rs name=parse_variable_definitions vis=pub ret=r serves=C07
+//@fn rel=crates/isograph_lang_parser/src/parse_iso_literal.rs name=parse_variable_definitions vis=pub ret=r serves=C07 prefix="#[verifier::exec_allows_no_decreases_clause]"
 //@rw R19 R4
 //@hsub "tokens: &mut PeekableLexer," => "tokens: &mut PeekableLexer<'_>,"
 //@contract
@@ -843,7 +823,7 @@ pub fn parse_type_annotation(tokens: &mut PeekableLexer<'_>) -> (r: DiagnosticRe
                 cr is Err ==> diag_ok(cr->Err_0, byte_len(old(item).source)),
 //@end
 
-//@fn rel=crates/isograph_lang_parser/src/parse_iso_literal.rs name=parse_client_pointer_target_type vis=pub ret=r serves=C07
+//@fn rel=crates/isograph_lang_parser/src/parse_iso_literal.rs name=parse_client_pointer_target_type vis=pub ret=r serves=C07 prefix="#[verifier::exec_allows_no_decreases_clause]"
 //@rw R15 R16 R4
 //@sub "keyword\.item != \"to\"" => "!str_eq(keyword.item, \"to\")" n=1
 //@contract
@@ -898,11 +878,12 @@ pub fn block_string_inner<'a>(source: &'a str) -> (r: &'a str)
     requires byte_len(source) >= 6,
     ensures byte_len(r) == byte_len(source) - 6, //@O C07.O-8_block_string_quotes_are_cut_inside_the_token
 {
-//@expr rel=crates/isograph_lang_parser/src/description.rs fn=clean_block_string_literal start="&source[3..source.len() - 3]" until=";" block=block_string_inner serves=C07 sub="&source\[3\.\.source\.len\(\) - 3\]=>str_slice(source, 3, str_len(source) - 3)"
+//@expr rel=crates/isograph_lang_parser/src/description.rs fn=clean_block_string_literal start="&source[" until=";" block=block_string_inner serves=C07 sub="&source\[([^\]]*?)\.\.([^\]]*?)\]=>str_slice(source, \1, \2)" sub2="source\.len\(\)=>str_len(source)"
 }
 //@fn rel=crates/isograph_lang_parser/src/description.rs name=parse_single_line_description vis=pub ret=r serves=C07
 //@rw R17
-//@sub "source_with_quotes\[1\.\.source_with_quotes\.len\(\) - 1\]\s*\.intern\(\)" => "intern_str(str_slice(source_with_quotes, 1, str_len(source_with_quotes) - 1))" n=1
+//@sub "source_with_quotes\[([^\]]*?)\.\.([^\]]*?)\]\s*\.intern\(\)" => "intern_str(str_slice(source_with_quotes, \1, \2))" n=1
+//@sub "source_with_quotes\.len\(\)" => "str_len(source_with_quotes)" n=*
 //@contract
     requires old(tokens).inv(),
     ensures final(tokens).inv(), final(tokens).same_literal(old(tokens)), final(tokens).monotone(old(tokens)), //@O C07.O-8_parse_single_line_description_preserves_cursor_invariant
@@ -934,7 +915,7 @@ pub fn block_string_inner<'a>(source: &'a str) -> (r: &'a str)
 //@item rel=crates/isograph_lang_types/src/declarations/client_selectable_declaration.rs kind=struct name=ClientFieldDeclaration prefix="pub"
 //@item rel=crates/isograph_lang_types/src/declarations/client_selectable_declaration.rs kind=struct name=ClientPointerDeclaration prefix="pub"
 
-//@fn rel=crates/isograph_lang_parser/src/parse_iso_literal.rs name=parse_iso_entrypoint_declaration vis=pub ret=r serves=C07
+//@fn rel=crates/isograph_lang_parser/src/parse_iso_literal.rs name=parse_iso_entrypoint_declaration vis=pub ret=r serves=C07 prefix="#[verifier::exec_allows_no_decreases_clause]"
 //@sub "dot\.map\(\|_\| \(\)\)" => "dot.map(|_d: IsographLangTokenKind| ())" n=1
 //@sub "\.map\(EntityNameWrapper\)" => ".map(|v| EntityNameWrapper(v))" n=*
 //@sub "\.map\(ClientScalarSelectableNameWrapper\)" => ".map(|v| ClientScalarSelectableNameWrapper(v))" n=*
@@ -952,7 +933,7 @@ pub fn block_string_inner<'a>(source: &'a str) -> (r: &'a str)
                 cr is Err ==> diag_ok(cr->Err_0, byte_len(old(tokens).source)),
 //@end
 
-//@fn rel=crates/isograph_lang_parser/src/parse_iso_literal.rs name=parse_client_field_declaration_inner vis=pub ret=r serves=C07
+//@fn rel=crates/isograph_lang_parser/src/parse_iso_literal.rs name=parse_client_field_declaration_inner vis=pub ret=r serves=C07 prefix="#[verifier::exec_allows_no_decreases_clause]"
 //@sub "From::from\(client_field_name\.location\)" => "Location::from(client_field_name.location)" n=1
 //@sub "\.map\(EntityNameWrapper\)" => ".map(|v| EntityNameWrapper(v))" n=*
 //@rw R17 R16 R4
@@ -975,7 +956,7 @@ pub fn block_string_inner<'a>(source: &'a str) -> (r: &'a str)
             ensures d.loc() == Some(Location::Embedded(client_field_name.location)),
 //@end
 
-//@fn rel=crates/isograph_lang_parser/src/parse_iso_literal.rs name=parse_iso_client_field_declaration vis=pub ret=r serves=C07
+//@fn rel=crates/isograph_lang_parser/src/parse_iso_literal.rs name=parse_iso_client_field_declaration vis=pub ret=r serves=C07 prefix="#[verifier::exec_allows_no_decreases_clause]"
 //@rw R4
 //@contract
     requires old(tokens).inv(),
@@ -985,7 +966,7 @@ pub fn block_string_inner<'a>(source: &'a str) -> (r: &'a str)
         r is Err ==> diag_ok(r->Err_0, byte_len(old(tokens).source)), //@O C07.O-7_diagnostic_location_inside_literal
 //@end
 
-//@fn rel=crates/isograph_lang_parser/src/parse_iso_literal.rs name=parse_client_pointer_declaration_inner vis=pub ret=r serves=C07
+//@fn rel=crates/isograph_lang_parser/src/parse_iso_literal.rs name=parse_client_pointer_declaration_inner vis=pub ret=r serves=C07 prefix="#[verifier::exec_allows_no_decreases_clause]"
 //@sub "From::from\(client_pointer_name\.location\)" => "Location::from(client_pointer_name.location)" n=1
 //@sub "\.map\(EntityNameWrapper\)" => ".map(|v| EntityNameWrapper(v))" n=*
 //@rw R17 R16 R4
@@ -1008,7 +989,7 @@ pub fn block_string_inner<'a>(source: &'a str) -> (r: &'a str)
             ensures d.loc() == Some(Location::Embedded(client_pointer_name.location)),
 //@end
 
-//@fn rel=crates/isograph_lang_parser/src/parse_iso_literal.rs name=parse_iso_client_pointer_declaration vis=pub ret=r serves=C07
+//@fn rel=crates/isograph_lang_parser/src/parse_iso_literal.rs name=parse_iso_client_pointer_declaration vis=pub ret=r serves=C07 prefix="#[verifier::exec_allows_no_decreases_clause]"
 //@rw R4
 //@contract
     requires old(tokens).inv(),
@@ -1019,7 +1000,7 @@ pub fn block_string_inner<'a>(source: &'a str) -> (r: &'a str)
 //@end
 
 //@item rel=crates/isograph_lang_parser/src/parse_iso_literal.rs kind=enum name=IsoLiteralExtractionResult prefix="pub"
-//@fn rel=crates/isograph_lang_parser/src/parse_iso_literal.rs name=parse_iso_literal vis=pub ret=r serves=C07
+//@fn rel=crates/isograph_lang_parser/src/parse_iso_literal.rs name=parse_iso_literal vis=pub ret=r serves=C07 prefix="#[verifier::exec_allows_no_decreases_clause]"
 //@rw R15 R16 R17 R4
 //@sub "PeekableLexer::new\(&iso_literal_text, text_source\)" => "PeekableLexer::new(string_as_str(&iso_literal_text), text_source)" n=1
 //@sub "\(&iso_literal_text\)\.intern\(\)" => "intern_str(string_as_str(&iso_literal_text))" n=1
@@ -1030,22 +1011,73 @@ pub fn block_string_inner<'a>(source: &'a str) -> (r: &'a str)
         ensures r is Err ==> diag_ok(r->Err_0, string_byte_len(&iso_literal_text)), //@O C07.O-7_diagnostic_location_inside_literal
 //@end
 
-// ---- alternatives of parse_non_constant_value / parse_type_annotation ----------------------
-// Each alternative is a closure `|| { .. }` capturing `tokens` mutably, which Verus does not
-// accept; the closure's BLOCK is extracted verbatim as the body of a function of the cursor.
-// Dropped: the `from_control_flow(|| { to_control_flow(|| ALT)?; .. })` glue (first alternative
-// that returns Ok wins; an Err falls through to the next one with the cursor where it is).
+// ---- parse_non_constant_value / parse_type_annotation as a whole (R22) --------------------
+//@fn rel=crates/isograph_lang_parser/src/parse_iso_literal.rs name=parse_non_constant_value vis=pub ret=r serves=C07 prefix="#[verifier::exec_allows_no_decreases_clause] #[verifier::rlimit(150)] #[verifier::spinoff_prover]"
+//@rw R15 R16 R17 R4
+//@hsub "tokens: &mut PeekableLexer," => "tokens: &mut PeekableLexer<'_>,"
+//@sub "name\.map\(NonConstantValue::Variable\)" => "name.map(|v| NonConstantValue::Variable(v))" n=1
+//@sub "string\.map\(NonConstantValue::String\)" => "string.map(|v| NonConstantValue::String(v))" n=1
+//@sub "source_with_quotes\[([^\]]*?)\.\.([^\]]*?)\]\s*\.intern\(\)" => "intern_str(str_slice(source_with_quotes, \1, \2))" n=1
+//@sub "source_with_quotes\.len\(\)" => "str_len(source_with_quotes)" n=*
+//@sub "number\.parse\(\)" => "parse_i64(number)" n=1
+//@sub "bool\.parse::<bool>\(\)" => "parse_bool(bool)" n=1
+//@sub "parse_object_entry," => "|t: &mut PeekableLexer<'_>| -> (o: DiagnosticResult<NameValuePair<ValueKeyName, NonConstantValue>>) requires old(t).inv() ensures final(t).inv(), final(t).same_literal(old(t)), final(t).monotone(old(t)), o is Err ==> diag_ok(o->Err_0, byte_len(old(t).source)) { parse_object_entry(t) }," n=1
+//@altsplit var=tokens ty="&mut PeekableLexer<'_>" ret="Result<WithEmbeddedLocation<NonConstantValue>, Diagnostic>"
+            requires old(tokens).inv(),
+            ensures final(tokens).inv(), final(tokens).same_literal(old(tokens)), final(tokens).monotone(old(tokens)),
+                alt is Ok ==> final(tokens).progressed(old(tokens)) && located_from(alt->Ok_0, old(tokens)),
+                alt is Err ==> diag_ok(alt->Err_0, byte_len(old(tokens).source)),
+//@contract
+    requires old(tokens).inv(),
+    ensures
+        final(tokens).inv(), //@O C07.O-6_parse_non_constant_value_preserves_cursor_invariant
+        final(tokens).same_literal(old(tokens)), final(tokens).monotone(old(tokens)),
+        r is Ok ==> final(tokens).progressed(old(tokens)) && located_from(r->Ok_0, old(tokens)), //@O C07.O-6_a_value_consumes_a_token_and_is_located_inside_the_literal
+        r is Err ==> diag_ok(r->Err_0, byte_len(old(tokens).source)), //@O C07.O-7_diagnostic_location_inside_literal
+//@closure 4 params="parsed_str: WithEmbeddedLocation<&str>" ret="o: WithEmbeddedLocation<StringLiteralValue>"
+            requires byte_len(parsed_str.item) >= 2,
+            ensures o.location == parsed_str.location,
+//@closure 5 params="source_with_quotes: &str" ret="v: StringLiteralValue"
+            requires byte_len(source_with_quotes) >= 2, //@O C07.O-6_string_value_quotes_are_cut_inside_the_token
+//@closure 8 params="number: &str" ret="o: Result<NonConstantValue, Diagnostic>"
+            ensures o is Err ==> o->Err_0.loc() == Some(Location::Embedded(embedded_location)),
+//@closure 12 params="bool_or_null: &str" ret="o: Result<NonConstantValue, Diagnostic>"
+            ensures o is Err ==> o->Err_0.loc() == Some(Location::Embedded(embedded_location)),
+//@end
 
+//@fn rel=crates/isograph_lang_parser/src/parse_iso_literal.rs name=parse_type_annotation vis=pub ret=r serves=C07 prefix="#[verifier::exec_allows_no_decreases_clause]"
+//@rw R15 R16 R17 R4
+//@hsub "tokens: &mut PeekableLexer," => "tokens: &mut PeekableLexer<'_>,"
+//@altsplit var=tokens ty="&mut PeekableLexer<'_>" ret="Result<GraphQLTypeAnnotation, Diagnostic>"
+            requires old(tokens).inv(),
+            ensures final(tokens).inv(), final(tokens).same_literal(old(tokens)), final(tokens).monotone(old(tokens)),
+                alt is Ok ==> final(tokens).progressed(old(tokens)),
+                alt is Err ==> diag_ok(alt->Err_0, byte_len(old(tokens).source)),
+//@contract
+    requires old(tokens).inv(),
+    ensures
+        final(tokens).inv(), //@O C07.O-6_parse_type_annotation_preserves_cursor_invariant
+        final(tokens).same_literal(old(tokens)), final(tokens).monotone(old(tokens)),
+        r is Ok ==> final(tokens).progressed(old(tokens)) && located_from(r->Ok_0, old(tokens)), //@O C07.O-6_type_annotation_span_well_formed
+        r is Err ==> diag_ok(r->Err_0, byte_len(old(tokens).source)), //@O C07.O-7_diagnostic_location_inside_literal
+//@closure 1 params="tokens: &mut PeekableLexer<'_>" ret="cr: Result<GraphQLTypeAnnotation, Diagnostic>"
+            requires old(tokens).inv(),
+            ensures final(tokens).inv(), final(tokens).same_literal(old(tokens)), final(tokens).monotone(old(tokens)),
+                cr is Ok ==> final(tokens).progressed(old(tokens)),
+                cr is Err ==> diag_ok(cr->Err_0, byte_len(old(tokens).source)),
+//@end
+
+// ---- the two glue combinators of the try-alternatives idiom ----------------------------------
 // the two glue combinators themselves (generic, no cursor): to_control_flow turns Ok into
 // Break and Err into Continue, from_control_flow turns them back
-//@fn rel=crates/isograph_lang_parser/src/parse_iso_literal.rs name=to_control_flow vis=pub ret=r serves=C07
+//@fn rel=crates/isograph_lang_parser/src/parse_iso_literal.rs name=to_control_flow vis=pub ret=r serves=C07 prefix="#[verifier::exec_allows_no_decreases_clause]"
 //@hsub "result: impl FnOnce\(\) -> Result<T, E>" => "result: F"
 //@hsub "to_control_flow<T, E>" => "to_control_flow<T, E, F: FnOnce() -> Result<T, E>>"
 //@contract
     requires result.requires(()),
     ensures match r { ControlFlow::Break(t) => result.ensures((), Ok(t)), ControlFlow::Continue(e) => result.ensures((), Err(e)) }, //@O C07.O-6_to_control_flow_is_the_callbacks_result
 //@end
-//@fn rel=crates/isograph_lang_parser/src/parse_iso_literal.rs name=from_control_flow vis=pub ret=r serves=C07
+//@fn rel=crates/isograph_lang_parser/src/parse_iso_literal.rs name=from_control_flow vis=pub ret=r serves=C07 prefix="#[verifier::exec_allows_no_decreases_clause]"
 //@hsub "control_flow: impl FnOnce\(\) -> ControlFlow<T, E>" => "control_flow: F"
 //@hsub "from_control_flow<T, E>" => "from_control_flow<T, E, F: FnOnce() -> ControlFlow<T, E>>"
 //@contract
@@ -1053,6 +1085,9 @@ pub fn block_string_inner<'a>(source: &'a str) -> (r: &'a str)
     ensures match r { Ok(t) => control_flow.ensures((), ControlFlow::Break(t)), Err(e) => control_flow.ensures((), ControlFlow::Continue(e)) }, //@O C07.O-6_from_control_flow_is_the_callbacks_result
 //@end
 
+// ---- the alternatives once more, each as a function of its own: cheap, and a broken
+// alternative fails here with a named obligation even if the composed function above runs
+// into the solver's resource limit
 /// alternative 1 of parse_non_constant_value: `$name`
 pub fn non_constant_value_alt_variable(tokens: &mut PeekableLexer<'_>) -> (r: Result<WithEmbeddedLocation<NonConstantValue>, Diagnostic>)
     requires old(tokens).inv(),
@@ -1072,7 +1107,7 @@ pub fn non_constant_value_alt_string(tokens: &mut PeekableLexer<'_>) -> (r: Resu
         r is Ok ==> final(tokens).progressed(old(tokens)),
         r is Err ==> diag_ok(r->Err_0, byte_len(old(tokens).source)), //@O C07.O-7_diagnostic_location_inside_literal
 {
-//@expr rel=crates/isograph_lang_parser/src/parse_iso_literal.rs fn=parse_non_constant_value start="to_control_flow::<_, Diagnostic>(|| {" skip="to_control_flow::<_, Diagnostic>(||" nth=1 block=non_constant_value_alt_string serves=C07 sub="source_with_quotes\[1\.\.source_with_quotes\.len\(\) - 1\]\s*\.intern\(\)\s*\.into\(\)=>From::from(intern_str(str_slice(source_with_quotes, 1, str_len(source_with_quotes) - 1)))" sub2="\|parsed_str\| \{=>|parsed_str: WithEmbeddedLocation<&str>| -> (o: WithEmbeddedLocation<StringLiteralValue>) requires byte_len(parsed_str.item) >= 2 {" sub3="\|source_with_quotes\| \{=>|source_with_quotes: &str| -> (v: StringLiteralValue) requires byte_len(source_with_quotes) >= 2 {" sub4="string\.map\(NonConstantValue::String\)=>string.map(|v| NonConstantValue::String(v))" rw=R4
+//@expr rel=crates/isograph_lang_parser/src/parse_iso_literal.rs fn=parse_non_constant_value start="to_control_flow::<_, Diagnostic>(|| {" skip="to_control_flow::<_, Diagnostic>(||" nth=1 block=non_constant_value_alt_string serves=C07 sub="source_with_quotes\[([^\]]*?)\.\.([^\]]*?)\]\s*\.intern\(\)\s*\.into\(\)=>From::from(intern_str(str_slice(source_with_quotes, \1, \2)))" sub5="source_with_quotes\.len\(\)=>str_len(source_with_quotes)" sub2="\|parsed_str\| \{=>|parsed_str: WithEmbeddedLocation<&str>| -> (o: WithEmbeddedLocation<StringLiteralValue>) requires byte_len(parsed_str.item) >= 2 {" sub3="\|source_with_quotes\| \{=>|source_with_quotes: &str| -> (v: StringLiteralValue) requires byte_len(source_with_quotes) >= 2 {" sub4="string\.map\(NonConstantValue::String\)=>string.map(|v| NonConstantValue::String(v))" rw=R4
 }
 
 /// alternative 3 of parse_non_constant_value: an integer literal (the conversion itself is
